@@ -19,6 +19,21 @@ pub fn iso_points<S: Suite>(ctx: &Ctx, n: usize, mk: &(dyn Fn(u64) -> S::K + Syn
     let lifted = par_map(xs.len(), |i| S::sqrt(&c.rhs(&xs[i])).map(|y| Pt::Aff(xs[i].clone(), y)));
     let mut out: Vec<Pt<S::K>> = vec![];
     let mut seen = std::collections::HashSet::new();
+    // the affine points that the isogenous curve and the target curve have in common: x^3 + A'x + B' = x^3 + b,
+    // i.e. x = (b - B')/A' (a point that "already satisfies the target equation" must still be mapped)
+    {
+        let e = S::curve();
+        let xs = e.b.sub(&c.b).mul(&c.a.inv().unwrap());
+        if let Some(y) = S::sqrt(&c.rhs(&xs)) {
+            let p = Pt::Aff(xs.clone(), y.clone());
+            assert!(c.on_curve(&p) && e.on_curve(&p));
+            seen.insert(p.clone());
+            out.push(p);
+            let np = c.neg(&Pt::Aff(xs, y));
+            seen.insert(np.clone());
+            out.push(np);
+        }
+    }
     for p in lifted.into_iter().flatten() {
         if seen.insert(p.clone()) {
             out.push(p);
